@@ -49,6 +49,19 @@ SMALL = [
 ]
 
 
+# back-pressure with several producers: maxQueueSize >= 2, two or more producers parked on notFull_ at once, a worker
+# that takes twice in a row before a woken producer re-appends (every pop must signal notFull_, not only the pop that
+# leaves a full queue); no stop() in the programs: stop() would release whoever is stuck.  The first one is explored
+# in the quick tier as well; when an obligation or tie broke they are explored before everything else.
+SMALL_BP = [
+    ("pool 1 2", [["run 1", "run 2"], ["run 3"], ["run 4"]], False, 1),
+    ("pool 1 2", [["run 1"], ["run 2"], ["run 3"], ["run 4"]], False, 0),
+    ("pool 2 2", [["run 1", "run 2"], ["run 3"], ["run 4", "run 5"]], False, 0),
+    ("pool 1 3", [["run 1", "run 2", "run 3"], ["run 4"], ["run 5"], ["run 6"]], False, 0),
+    ("pool 1 2", [["run 1", "run 2"], ["run 3", "run 5"], ["run 4"]], True, 1),
+]
+
+
 class Prop:
     id = "C15"
     lean_module = "MuduoVerif.Props.C15"
@@ -73,7 +86,10 @@ class Prop:
     rule = ("pools with 0..3 threads, maxQueueSize 0..2, 1..3 callers with 0..4 run() each, a stop() inside a caller's program "
             "(55%), as a thread of its own (35%) or absent (10%); 35% of the cases offer spurious wake-ups; random schedules "
             "of 0..60 decisions plus, for the small configurations listed in the plug-in, every schedule within the "
-            "preemption bound; a run is non-trivial when the scheduler had at least one real decision or the run ended "
+            "preemption bound (among them bounded queues of size >= 2 with three or four producers and no stop(), so that "
+            "several producers are parked on notFull_ at once); a program on which model and implementation differ is "
+            "explored again (with and without its stop()) under the oracle alone; a run is non-trivial when the scheduler "
+            "had at least one real decision or the run ended "
             "all-blocked; distinct = distinct observable traces")
     trusted_base = [
         "Lean 4.33.0 kernel; axioms allowed: propext, Classical.choice, Quot.sound",
@@ -118,7 +134,8 @@ class Prop:
             if fl == "dbg":
                 total, complete = 0, []
                 limit = 12000 if heavy else 2500
-                for obj, threads, spur, bound in (SMALL if heavy else SMALL[:3]):
+                plan = (SMALL_BP + SMALL) if heavy else (SMALL[:3] + SMALL_BP[:1])
+                for obj, threads, spur, bound in plan:
                     c = mc.MCase(obj, threads, [], spur, "systematic")
                     n, done = r.explore(exe, c, bound, limit)
                     total += n
